@@ -1,9 +1,11 @@
 package main
 
 import (
+	"bytes"
 	"fmt"
 	"go/ast"
 	"go/constant"
+	"go/printer"
 	"go/token"
 	"path/filepath"
 	"strings"
@@ -14,6 +16,7 @@ import (
 //
 //   gen_order_first / gen_order_last   defaultOrderFirst / defaultOrderLast (SortOrderTransformer.go)
 //   gen_namespace_kind                 types.NamespaceKind
+//   gen_ns_reversal_guarded            shape of the Namespace-kind test in gvkLessThan (with / without rank guard)
 //   gen_legacy_gvk_strings             the local string constants of legacyGVKSortString
 //   gen_legacy_resid_strings           the local string constants of legacyResIDSortString
 //   gen_gvk_string_consts              noGroup/noVersion/noKind/fieldSep of kyaml/resid/gvk.go
@@ -174,6 +177,47 @@ func fsSkipVar(files []*ast.File, name string) ([]fieldSpec, error) {
 	return out, nil
 }
 
+// namespaceReversalGuard classifies the condition of the Namespace-kind reversal in gvkLessThan:
+// false = the condition as it stood (no rank guard), true = the repaired form `index1 != 0 && ...`.
+// Any other shape is an error: the model would not know what it describes.
+func namespaceReversalGuard(fset *token.FileSet, files []*ast.File) (bool, error) {
+	const unguarded = `(gvk1.Kind == types.NamespaceKind && gvk2.Kind == types.NamespaceKind) && (gvk1.Group == "" || gvk2.Group == "")`
+	for _, f := range files {
+		for _, d := range f.Decls {
+			fd, ok := d.(*ast.FuncDecl)
+			if !ok || fd.Name.Name != "gvkLessThan" || fd.Body == nil {
+				continue
+			}
+			var conds []string
+			for _, st := range fd.Body.List {
+				is, ok := st.(*ast.IfStmt)
+				if !ok {
+					continue
+				}
+				var b bytes.Buffer
+				if err := printer.Fprint(&b, fset, is.Cond); err != nil {
+					return false, err
+				}
+				c := strings.Join(strings.Fields(b.String()), " ")
+				if strings.Contains(c, "NamespaceKind") {
+					conds = append(conds, c)
+				}
+			}
+			if len(conds) != 1 {
+				return false, fmt.Errorf("gvkLessThan: expected exactly one Namespace-kind test, found %d", len(conds))
+			}
+			switch conds[0] {
+			case unguarded:
+				return false, nil
+			case "index1 != 0 && " + unguarded:
+				return true, nil
+			}
+			return false, fmt.Errorf("gvkLessThan: unrecognised Namespace-kind condition %q", conds[0])
+		}
+	}
+	return false, fmt.Errorf("function gvkLessThan not found")
+}
+
 func coqStrListT(l []string) string {
 	parts := make([]string, len(l))
 	for i, s := range l {
@@ -192,7 +236,11 @@ func coqPairList(l [][2]string) string {
 
 func init() {
 	registerGen("LegacyOrder.v", func(repo string) (string, error) {
-		_, bfiles, err := parseDir(filepath.Join(repo, "api/internal/builtins"))
+		bfset, bfiles, err := parseDir(filepath.Join(repo, "api/internal/builtins"))
+		if err != nil {
+			return "", err
+		}
+		guarded, err := namespaceReversalGuard(bfset, bfiles)
 		if err != nil {
 			return "", err
 		}
@@ -245,6 +293,8 @@ func init() {
 		fmt.Fprintf(&b, "Definition gen_order_first : list string := %s.\n\n", coqStrListT(first))
 		fmt.Fprintf(&b, "Definition gen_order_last : list string := %s.\n\n", coqStrListT(last))
 		fmt.Fprintf(&b, "Definition gen_namespace_kind : string := %s.\n\n", coqStr(nsKind))
+		fmt.Fprintf(&b, "(* does the Namespace-kind reversal of gvkLessThan carry the rank guard `index1 != 0 &&`? *)\n")
+		fmt.Fprintf(&b, "Definition gen_ns_reversal_guarded : bool := %s.\n\n", coqBool(guarded))
 		fmt.Fprintf(&b, "Definition gen_legacy_gvk_strings : list (string * string) := %s.\n\n", coqPairList(gvkS))
 		fmt.Fprintf(&b, "Definition gen_legacy_resid_strings : list (string * string) := %s.\n\n", coqPairList(ridS))
 		fmt.Fprintf(&b, "Definition gen_gvk_string_consts : list (string * string) := %s.\n\n", coqPairList(gvkConsts))
